@@ -74,6 +74,9 @@ STACKS = [
     [("D", 0.2, 0.5), ("D", 0.1, 0.04)],
     [("D", 0.2, 0.5), ("missing",)],
     [("zero", 0.1)],
+    # layers entered with thickness 0: a resistance-only material still counts with its R, a missing material still has no U
+    [("D", 0.12, 0.5), ("R", 0.0, 0.18), ("D", 0.05, 0.04)],
+    [("D", 0.2, 0.5), ("missing0",)],
 ]
 
 
@@ -98,6 +101,8 @@ def cons_from_stack(name, stack, materials):
         elif l[0] == "zero":
             materials.append({"id": mid, "name": "%s_m%d" % (name, i), "conductivity": 0.0, "density": 1000.0, "specific_heat": 1000.0})
             layers.append({"material": mid, "e": l[1]})
+        elif l[0] == "missing0":
+            layers.append({"material": uid("no-such-material"), "e": 0.0})
         else:  # missing material
             layers.append({"material": uid("no-such-material"), "e": 0.1})
     return {"id": uid("cons-" + name), "name": name, "layers": layers, "absorptance": 0.6}
